@@ -15,7 +15,8 @@ and the extracted executable reachability (specification) on the same script.
 import os, json, re, time
 import vlib
 
-REGK = 'SRBALTEUYZWFVPI'
+REGK = 'SRBALTEUYZWFVPIDG'
+LEAFK = 'IDG'            # managed leaf objects: new(Int), new(Float), new(String)
 F1_SIG = 'mark-recursion-depth'
 MAX_CHAIN_REGULAR = 20000
 
@@ -42,7 +43,7 @@ class Sim:
     def ptrs(self, i):
         nd = self.n[i]
         if nd['k'] in 'SsRrBWVP': return [x for x in nd['f'] if x]
-        if nd['k'] == 'I': return []
+        if nd['k'] in 'IDG': return []
         if nd['k'] == 'F': return []
         if nd['k'] in 'TEYZ': return list(nd['kv'].values())
         return list(nd['items'])
@@ -162,6 +163,7 @@ class Sim:
                 if j != keep and j not in self.owned: self.drop(j)
 
     VIEW_INPUTS = 'ALUTEYZ'
+    ZIP_INPUTS = 'ALUTEYZIDG'       # a Zip only stores its inputs: leaf objects too (such a Zip is not iterated)
 
     def view(self, k, a=0, b=0):
         """heap view object (z Zip(a, b), l Slice(a), m Map(a), f Filter(a), r Range) allocated with new(); the managed
@@ -387,7 +389,7 @@ def unroot(s, r):
 def gen_random(rng, maxnodes, maxops):
     s = Sim(rng)
     nops = rng.randrange(8, maxops)
-    kinds = 'SSRRBALTEYZUU' + ('sru' if rng.random() < .4 else '') + ('W' if maxnodes <= 200 else '')
+    kinds = 'SSRRBALTEYZUUIDG' + ('sru' if rng.random() < .4 else '') + ('W' if maxnodes <= 200 else '')
     HOLD = 'SRWALTEYZUsru'
     pc = min(.08, 40.0 / nops)           # about 40 forced collections per script at most
     pb = min(.05, 25.0 / nops)
@@ -399,7 +401,7 @@ def gen_random(rng, maxnodes, maxops):
             # give it some out-pointers
             for _ in range(rng.randrange(0, 3)):
                 t = s.pick_target(i)
-                if t is not None and k != 'B' and (t != i or rng.random() < .15): s.link(i, t)
+                if t is not None and k not in 'BIDG' and (t != i or rng.random() < .15): s.link(i, t)
             # and make something point to it
             if rng.random() < .7:
                 h = s.pick(lambda h: s.n[h]['k'] in HOLD and h != i and s.usable(h) and ok_edge(s, h, i))
@@ -700,6 +702,45 @@ def gen_views(rng):
     return s.script()
 
 
+def gen_leaves(rng):
+    """managed LEAF objects (new(Int), new(Float), new(String)) whose only reference is an item of a heap Tuple — Tuple_Mark hands
+    the item POINTERS to the callback, so the leaf object itself must be looked up and marked — in stack-held, root-held,
+    thread-local and cyclic (Tuple <-> Ref) configurations, cons cells (payload, next), the Tuples inside a heap Zip; for
+    contrast the same leaves held by Ref / struct / containers of Ref"""
+    s = Sim(rng)
+    roots = []
+    for _ in range(rng.randrange(1, 4)):
+        shape = rng.choice(['tuple', 'tuple', 'cons', 'cycle', 'zip', 'other'])
+        if shape == 'tuple':
+            t = s.new('U', root=rng.random() < .3)
+            for _ in range(rng.randrange(1, 5)):
+                x = s.new(rng.choice(LEAFK)); s.insert(t, x); s.drop(x)
+            hd = t
+        elif shape == 'cons':
+            hd = 0
+            for _ in range(rng.randrange(1, 6)):
+                c = s.new('U'); x = s.new(rng.choice(LEAFK)); s.insert(c, x); s.drop(x)
+                if hd: s.insert(c, hd); s.drop(hd)
+                hd = c
+        elif shape == 'cycle':
+            t = s.new('U'); r = s.new('R'); x = s.new(rng.choice(LEAFK))
+            s.insert(t, x); s.insert(t, r); s.store(r, 0, t); s.drop(x); s.drop(r)
+            hd = t
+        elif shape == 'zip':
+            a = s.new(rng.choice(LEAFK)); b = s.new(rng.choice('IDGAL'))
+            hd = s.view('z', a, b); s.drop(a); s.drop(b)
+        else:
+            hd = s.new(rng.choice('RSALTE')); x = s.new(rng.choice(LEAFK)); s.link(hd, x); s.drop(x)
+        roots.append(root_somehow(s, hd, rng))
+        if rng.random() < .3: s.collect(narrow=rng.random() < .5)
+    s.exact(); s.burst(rng.choice([5, 40])); s.collect(); s.exact()
+    for r in roots:
+        unroot(s, r)
+        if rng.random() < .5: s.exact()
+    s.exact()
+    return s.script()
+
+
 DEEP_KINDS = 'RBSUV'
 
 
@@ -790,6 +831,7 @@ def gen_case1(rng, size):
     if r < .08: return gen_finaliser(rng)
     if r < .16: return gen_bulk(rng)
     if r < .22: return gen_views(rng)
+    if r < .28: return gen_leaves(rng)
     if r < .50: return gen_random(rng, size, max(12, size * 3))
     if r < .62: return gen_chain(rng, rng.choice([1, 2, 5, 20, 100, min(size * 2, 400)]))
     if r < .72: return gen_tuple_dag(rng, rng.randrange(2, 14), rng.choice([1, 2, 2, 3]))
@@ -818,6 +860,9 @@ def valid_script(case):
             if c in 'NCGHM' and s.pending_finalisers(): return False      # only an exact collection may finalise an F node
             if c == 'O':
                 if v[0] not in s.n or s.n[v[0]]['k'] != 'P' or not s.usable(v[0]): return False
+                vp = s.ptrs(v[0])
+                if vp and s.n[vp[0]]['k'] == 'U' and any(s.n[t]['k'] in LEAFK for t in s.n[vp[0]]['items'] if t in s.n):
+                    return False              # a Zip over leaf objects cannot be iterated
                 continue
             if c == 'V':
                 m = re.match(r'(\d+)([zlmfr])(?:=(\d+)(?:,(\d+))?)?$', rest)
@@ -827,7 +872,7 @@ def valid_script(case):
                 need = {'z': 2, 'r': 0}.get(k, 1)
                 if [a, b][:need].count(0) or (need < 2 and b) or (need == 0 and a): return False
                 for t in [a, b][:need]:
-                    if t not in s.n or s.n[t]['k'] not in Sim.VIEW_INPUTS or not s.usable(t) or t in s.owned: return False
+                    if t not in s.n or s.n[t]['k'] not in (Sim.ZIP_INPUTS if k == 'z' else Sim.VIEW_INPUTS) or not s.usable(t) or t in s.owned: return False
                 if i <= s.nid or any(i <= q[0] <= i + 2 for q in s.qcfg.values()): return False
                 s.nid = i - 1
                 s.view(k, a, b)
@@ -884,7 +929,7 @@ def valid_script(case):
                 s.copy(src)
             elif c == 'P':
                 i, slot, t = v
-                if not s.usable(i) or slot >= len(s.n[i]['f']): return False
+                if not s.usable(i) or s.n[i]['k'] not in 'SsRrBWV' or slot >= len(s.n[i]['f']): return False
                 if t:
                     if not s.usable(t) or t in s.owned or not ok_edge(s, i, t) and s.n[i]['k'] != 'B': return False
                     if s.n[i]['k'] == 'B':
@@ -1091,6 +1136,9 @@ def classify(case, impl, why):
 
 
 CORPUS = [
+    # seed C01-r7-2: managed leaf objects referenced only from a heap Tuple (stack-held, cyclic with a Ref, inside a heap Zip)
+    'N1U N2I I1,0=2 K-2 N3G I1,0=3 K-3 N4D I1,0=4 K-4 E G M30 E K-1 E',
+    'N1U N2R N3G I1,0=3 I1,0=2 P2.0=1 K-3 K-2 T+24=1 K-1 E G T-24 E', 'N1I N2G V3z=1,2 K-1 K-2 E G K-3 E',
     # seed C18-r6-1: containers reachable only through a heap Zip / Slice / Map / Filter
     'N1A N2S I1,0=2 K-2 N3L N4S I3,0=4 K-4 V10z=1,3 K-1 K-3 E O10 G M30 E O10 K-10 E',
     'N1L N2S I1,0=2 K-2 V10m=1 V20f=1 V30r V40l=1 K-1 E O10 O20 O30 O40 K-10 K-40 E K-20 K-30 E',
